@@ -23,6 +23,7 @@ RULE = ("random format ASTs: tokens of every dtype with length spelled 'name:n' 
         "non-trivial = at least 2 flat tokens")
 ANCHORS = ['pack', 'tokenparser', 'preprocess_tokens', 'expand_brackets', 'structparser', 'parse_single_token',
            'parse_name_length_token', 'Bits._readlist', 'Bits._read_dtype_list', 'bitstore_from_token', 'str_to_bitstore']
+SURPLUS = [(0,), (None,), (False,), ('',), (b'',), (None, 7), ((),), (0.0,), (Bits(),)]
 REQUIRED_OPS = ['pack', 'unpack', 'unpack-list', 'pack-too-few', 'pack-too-many', 'pack-wrong-size', 'ctor-token-string', 'compose', 'rep-vs-flat']
 MIN_EVALS = {'quick': 10000, 'thorough': 200000}
 ASSUMPTIONS = ['MSB0 mode (pack/unpack order under lsb0 is C12)']
@@ -351,7 +352,9 @@ def judge(ctx, case):
                     ctx.ok(('too-few',) + key[:1], nontrivial)
             else:
                 ctx.op('pack-too-few', 'n/a')
-            g = call(lambda: pack(fmt, *vals, 0, **kw))
+            # one value too many, whatever that value is (None, False, '' and 0 are values too); sometimes two
+            surplus = SURPLUS[case.get('surplus', 0) % len(SURPLUS)]
+            g = call(lambda: pack(fmt, *vals, *surplus, **kw))
             ctx.op('pack-too-many', 'ok' if g[0] == 'ok' else type(g[1]).__name__)
             if g[0] == 'ok' or not exc_matches(g[1], 'ValueError'):
                 ctx.mismatch(f'C05|pack-too-many|{ic}|{shape(g, True)}', case, f'{fmt!r:.120}')
@@ -494,7 +497,7 @@ def gen_case(ctx):
                        or (t['t'] == 'tok' and t['name'] in ('bool', 'bfloat', 'bfloatle')) for t in fl):
                     tail.append(it)
             tree = tree[:k] + [st] + tail
-    return {'tree': tree, 'ws': rng.random() < 0.5, 'fmt': None}
+    return {'tree': tree, 'ws': rng.random() < 0.5, 'fmt': None, 'surplus': rng.randrange(9)}
 
 
 DIRECTED = [
